@@ -255,6 +255,18 @@ async def check_message(ctx: Ctx, c: Conn, n: int, b: bytes,
             'detail': 'RFC822.SIZE %r, len(b) %d' % (
                 att.get(b'RFC822.SIZE'), len(b)),
             'witness': {'message': b[:3000]}})
+    # the size must not depend on what else is asked for: alone and with
+    # metadata only (a backend may then skip loading the message)
+    for attrs in (b'RFC822.SIZE', b'FLAGS INTERNALDATE RFC822.SIZE'):
+        att1 = await fetch1(c, n, attrs)
+        ctx.count('size_alone_comparisons')
+        if att1 is not None and att1.get(b'RFC822.SIZE') != len(b):
+            ctx.violations.append({
+                'mech': '%ssize-without-content-attributes:%s' % (
+                    tag, ctx.backend),
+                'detail': 'FETCH (%s): RFC822.SIZE %r, len(b) %d' % (
+                    attrs.decode(), att1.get(b'RFC822.SIZE'), len(b)),
+                'witness': {'message': b[:3000]}})
     att = await fetch1(c, n, b'BODY.PEEK[HEADER] BODY.PEEK[TEXT] '
                        b'RFC822.HEADER')
     if att is not None:
